@@ -69,3 +69,13 @@ pub fn vx_split_map<'a, R, F: FnMut(&'a str) -> R>(s: &'a str, c: char, f: F) ->
         r.items@.len() == split_spec(s@, c).len(),
         forall|i: int| 0 <= i < r.items@.len() ==> exists|p: &'a str| p@ == split_spec(s@, c)[i] && f.ensures((p,), #[trigger] r.items@[i]),
 { unimplemented!() }
+
+// ---- slice::Iter::all(pred) ----
+/// `v.iter().all(p)`: true means p answered true on every element; false means it answered false on one
+#[verifier::external_body]
+pub fn vx_iter_all<T, P: FnMut(&T) -> bool>(v: &Vec<T>, p: P) -> (r: bool)
+    requires forall|x: &T| p.requires((x,)),
+    ensures
+        r ==> (forall|i: int| 0 <= i < v@.len() ==> p.ensures((&#[trigger] v@[i],), true)),
+        !r ==> (exists|i: int| 0 <= i < v@.len() && p.ensures((&#[trigger] v@[i],), false)),
+{ unimplemented!() }
